@@ -75,7 +75,8 @@ BrefTrees == UNION {BrefShapes(b) : b \in BrefBodies}
 \* one of the path being tried, not of the abandoned one).  Every shape is followed by `b` and by `ab`.
 BrefShapesIn(b) == {Grp(1, Cat(Bref(1), b)), Cat(Bref(1), Grp(1, b))}
 BrefSuffixes == {Chr(98), Cat(Chr(97), Chr(98))}
-BrefKTrees == UNION {BrefShapesIn(b) \cup {Cat(t, k) : t \in BrefShapes(b) \cup BrefShapesIn(b), k \in BrefSuffixes} : b \in BrefBodies}
+BrefKOf(b) == BrefShapesIn(b) \cup {Cat(t, k) : t \in BrefShapes(b) \cup BrefShapesIn(b), k \in BrefSuffixes}
+BrefKTrees == UNION {BrefKOf(b) : b \in BrefBodies}
 
 \* capture-reset family (three operator nodes, needed already in the quick tier): a group that takes part in one iteration
 \* of an enclosing quantifier and not in the next must read undefined afterwards
@@ -110,16 +111,20 @@ ClsMembers3 == IF Quick THEN {Rng(98, 98), Rng(97, 98), Rng(97, 99), ShItem(100)
                ELSE {Rng(98, 98), Rng(97, 98), Rng(98, 99), Rng(97, 99), Rng(65, 67), ShItem(100), ShItem(119), ShItem(83)}
 ClsItemSeqs == {<<p>> : p \in ClsMembers} \cup {<<p, q>> : p \in ClsMembers, q \in ClsMembers}
                \cup {<<p, q, r>> : p \in ClsMembers3, q \in ClsMembers3, r \in ClsMembers3}
+ClsOf(t) == IF t.t = "rep" THEN t.x[1] ELSE t
 ClsTrees == LET cs == {Cls(neg, its) : neg \in BOOLEAN, its \in ClsItemSeqs}
             IN IF Quick THEN cs ELSE cs \cup {Rep(c, 1, -1, TRUE) : c \in cs}
-\* families given as explicit tree sets: [name, trees, flag sets, subject set without / with the i flag]
+\* families given as explicit tree sets: [name, trees, flag sets, subject set without / with the i flag].  A family is cut into parts
+\* (one record per part, same name) only so that TLC's workers share the enumeration and the laws: the union is what is stated above.
 BrefSubs == IF Quick THEN "abc4" ELSE "abc5"
 IFlag == Flags(TRUE, FALSE, FALSE)
-SpecialFamilies == <<[name |-> "bref", trees |-> BrefTrees, fls |-> {NoFlags, IFlag}, subs |-> BrefSubs, isubs |-> "aAb4"],
-                     [name |-> "reset3", trees |-> ResetTrees, fls |-> {NoFlags}, subs |-> BrefSubs, isubs |-> "aAb4"],
-                     [name |-> "brefk", trees |-> BrefKTrees, fls |-> {NoFlags, IFlag}, subs |-> BrefSubs, isubs |-> "aAb4"],
-                     [name |-> "resetw", trees |-> ResetWTrees, fls |-> {NoFlags}, subs |-> "abc4", isubs |-> "aAb4"],
-                     [name |-> "cls", trees |-> ClsTrees, fls |-> {NoFlags, IFlag}, subs |-> "cls2", isubs |-> "cls2"]>>
+SFam(name, trees, fls, subs, isubs) == [name |-> name, trees |-> trees, fls |-> fls, subs |-> subs, isubs |-> isubs]
+SpecialFamilies ==
+  SX2!SetToSeq({SFam("bref", BrefShapes(b), {NoFlags, IFlag}, BrefSubs, "aAb4") : b \in BrefBodies})
+  \o SX2!SetToSeq({SFam("reset3", {t \in ResetTrees : <<t.min, t.max, t.g>> = q}, {NoFlags}, BrefSubs, "aAb4") : q \in ResetQuants})
+  \o SX2!SetToSeq({SFam("brefk", BrefKOf(b), {NoFlags, IFlag}, BrefSubs, "aAb4") : b \in BrefBodies})
+  \o SX2!SetToSeq({SFam("resetw", {t \in ResetWTrees : <<t.min, t.max, t.g>> = q}, {NoFlags}, "abc4", "aAb4") : q \in ResetQuants} \ {SFam("resetw", {}, {NoFlags}, "abc4", "aAb4")})
+  \o SX2!SetToSeq({SFam("cls", {t \in ClsTrees : ClsOf(t).neg = neg /\ ClsOf(t).items[1] = p}, {NoFlags, IFlag}, "cls2", "cls2") : neg \in BOOLEAN, p \in ClsMembers})
 
 \* flag sets worth trying on a tree: a flag is added only where a node it acts on occurs
 HasLetters(a) == Kinds(a) \cap {"chr", "cls", "bref"} # {}
